@@ -117,8 +117,11 @@ def case(c):
         'count': {'solves': len(res)}}
 
 
-SIZES_Q = [(8, 8, 8), (16, 16, 16), (32, 32, 32)]
-SIZES_T = SIZES_Q + [(64, 64, 64), (16, 24, 40), (32, 48, 20), (64, 12, 40)]
+# non-cubic 2^a x 3*2^b x 5*2^c shapes: in (16,24,10) z stops coarsening
+# before y, in (8,48,20) y is the most coarsenable direction
+SIZES_Q = [(8, 8, 8), (16, 16, 16), (32, 32, 32), (16, 24, 10), (8, 48, 20)]
+SIZES_T = SIZES_Q + [(64, 64, 64), (16, 24, 40), (32, 48, 20), (64, 12, 40),
+                     (32, 48, 10), (16, 96, 40), (20, 12, 24)]
 SIZES_T2 = [(128, 128, 128)]
 
 
@@ -158,10 +161,17 @@ def calibrate(only_missing=True):
         if c['nu'] != (2, 2) or c['medium'] not in ('iso', 'tri'):
             c['sizes'] = SIZES_T
     if only_missing:
-        cs = [c for c in cs if key(c) not in table]
+        todo = []
+        for c in cs:
+            miss = [s_ for s_ in c['sizes']
+                    if str(tuple(s_)) not in table.get(key(c), {})]
+            if miss:
+                todo.append(dict(c, sizes=miss))
+        cs = todo
     with mp.get_context('fork').Pool(14) as pool:
         res = pool.map(measure, cs, chunksize=1)
-    table.update({key(c): r for c, r in zip(cs, res)})
+    for c, r in zip(cs, res):
+        table.setdefault(key(c), {}).update(r)
     with open(TABLE, 'w') as f:
         json.dump(table, f, indent=1, sort_keys=True)
     print('written', TABLE, len(table), 'measured', len(cs))
